@@ -3,6 +3,7 @@ package props
 import (
 	"fmt"
 	"go/ast"
+	"go/types"
 	"strings"
 
 	"verif/internal/an"
@@ -48,6 +49,9 @@ func runC12(c *Ctx) {
 		for i, cp := range copies {
 			x := u.ArgTerm(cp, 1)
 			last := i == len(copies)-1
+			if sig := fn.Obj.Type().(*types.Signature); sig.Results().Len() == 1 && sig.Results().At(0).Type().String() == "int" {
+				last = false // a prefix writer returning the cursor: more segments follow in the caller
+			}
 			if strings.HasPrefix(x, "rockredis.") {
 				r.Ok("C12-K1", fmt.Sprintf("%s: constant segment %s has a fixed length", u.Name, x), u.Pos(cp.Pos), "")
 				continue
